@@ -38,6 +38,7 @@ type vW struct {
 	nballoc  uint64
 	nialloc  uint64
 	dirsDone []*inode.Inode
+	quiet    bool
 }
 
 func vWorld(name string) *vW {
@@ -59,8 +60,8 @@ func vWorldOn(d *verifrt.Disk) *vW {
 	w.hooks()
 	w.nfs = MakeNfs(d)
 	if !w.symaddr {
-		verifrt.AllocRep(w.nfs.fsstate.Balloc, 7000, 1)
-		verifrt.AllocRep(w.nfs.fsstate.Ialloc, 39, 32)
+		verifrt.AllocRep(w.nfs.fsstate.Balloc, 7000, 1, w.sup.NBlockBitmap*32768)
+		verifrt.AllocRep(w.nfs.fsstate.Ialloc, 39, 32, 32768)
 	}
 	return w
 }
@@ -99,6 +100,9 @@ func vChildOf(s uint64) uint64    { return 96 + (5*s+2)%32 }
 func (w *vW) hooks() {
 	ds, mx := uint64(w.sup.DataStart()), uint64(w.sup.MaxBnum())
 	verifrt.OnReturn("github.com/mit-pdos/go-nfsd/inode.Decode", func(ip *inode.Inode) {
+		if w.quiet {
+			return
+		}
 		inode.VerifAssumeInvLocal(ip, ds, mx, w.dirSlots, w.lnkMax)
 		if ip.Inum == common.ROOTINUM {
 			// the root is created once by mkfs (generation 1) and never freed
